@@ -183,6 +183,10 @@ class Norm:
             ty = ty.lstrip('&')
             if ty in ('cosmwasm_std::Addr', 'std::string::String', 'str'): return a[0]
             return ('tostr', a[0])
+        if name in ('std::cmp::Ord::min', 'std::cmp::min', 'cosmwasm_std::Uint128::min') or name.endswith(' as std::cmp::Ord>::min'):
+            x, y = a[0], a[1]
+            if repr(x) > repr(y): x, y = y, x
+            return ('min', x, y)
         if name == 'cosmwasm_std::coins': return ('coins', a[0], a[1])
         if name == 'cosmwasm_std::coin': return ('adt', 'cosmwasm_std::Coin', 'Coin', (('denom', a[1]), ('amount', a[0])))
         if name == 'cosmwasm_std::Api::addr_validate': return ('rcall', 'addr_validate', a[1:])
